@@ -106,6 +106,23 @@ void run_plain(const P& p, int gi, long idx, int mode, const std::string& input)
             break;
         }
         c.res = -2; break;
+        case 10:
+        if VF_ON(10)
+        {
+            // verbose trace through the bounds-monitoring buffer (the trace prints lexemes and positions)
+            checked_buffer b{ std::string_view(input) };
+            S.base = b.data(); S.blen = input.size();
+            std::ostringstream ss;
+            {
+                auto r = p.parse(parse_options{}.set_verbose(), b, ss);
+                c.res = r.has_value(); c.root = root_id(r);
+            }
+            c.stream = ss.str();
+            c.cb[0] = b.derefs; c.cb[1] = b.oob_deref; c.cb[2] = b.oob_form; c.cb[3] = b.bad_view; c.cb[4] = b.eof_reads; c.cb[5] = b.max_read;
+            c.extra = b.first_bad;
+            break;
+        }
+        c.res = -2; break;
         case 5: case 6:
         if VF_ON(5)
         {
